@@ -79,6 +79,26 @@ def run(rep, tier, seed):
             one(b, cm, nrs, randbits(rnd, rnd.randint(0, 2000)), rnd.choice([L, R]), 'random')
             one(b, cm, nrs, rnd.choice(nrs)['id'] + randbits(rnd, rnd.randint(0, 300)), rnd.choice([L, R]), 'id+random')
         one(b, cm, nrs, '', L, 'empty')
+        if i % 6 == 1:
+            # a rule whose match-mapping has no entry yet (legal: it builds, serialises and reloads; it matches nothing at compression):
+            # frames that start with its id decompress to a buffer like any other
+            from core import mkmap
+            from microschc.rfc8724 import RuleFieldDescriptor as _RFD, RuleDescriptor as _RD2, MatchingOperator as _MO, CompressionDecompressionAction as _CDA
+            used_ = [nr['id'] for nr in nrs]
+            for _ in range(30):
+                cand = randbits(rnd, rnd.randint(2, 10))
+                if all(not cand.startswith(u) and not u.startswith(cand) for u in used_):
+                    base = rules[0].field_descriptors if rules and rules[0].field_descriptors else []
+                    k_ = rnd.randrange(len(base)) if base else 0
+                    fds_ = list(base)
+                    if base:
+                        o_ = base[k_]
+                        fds_[k_] = _RFD(o_.id, o_.length, o_.position, o_.direction, mkmap({}), _MO.MATCH_MAPPING, _CDA.MAPPING_SENT)
+                    r_e = _RD2(id=mk(cand, rnd.choice([L, R])), field_descriptors=fds_)
+                    cm_e = ContextManager(Context(id='ce', description='', interface_id='i', parser_id=stack, ruleset=[r_e]))
+                    for _k in range(4):
+                        one(b, cm_e, [n_rule(r_e)], cand + randbits(rnd, rnd.choice([0, 0, 7, 40, 300])), rnd.choice([L, R]), 'rule-with-empty-mapping')
+                    break
         if i % 8 == 0:
             # a rule set without any rule (a context being provisioned): every frame gets the rule-ID error
             cm0 = ContextManager(Context(id='c0', description='', interface_id='i', parser_id=stack, ruleset=[]))
